@@ -49,5 +49,6 @@ fn main() {
         run,
         replay,
         assumptions,
+        decode_breadcrumb: None,
     });
 }
